@@ -203,3 +203,46 @@ class step_extend_by_bpm:
 
     def witnesses(rng):
         return _wit(rng, lambda r: Fraction(4 * r.randrange(1, 5)) + Fraction(r.randrange(1, 5), 1250))
+
+
+# ----------------------------------------------------------------------------- bounded: reseat() of a map with its own snapper
+
+from pyvc.bounded import replayer  # noqa: E402
+
+
+def _own_snapper_fails(case):
+    from reamber.algorithms.timing.TimingMap import TimingMap
+    from reamber.algorithms.timing.utils.BpmChangeOffset import BpmChangeOffset
+    from reamber.algorithms.timing.utils.Snapper import Snapper
+
+    bpm0, bpm1, init, measure, den = case["bpm0"], case["bpm1"], case["init"], case["measure"], case["den"]
+    pos = Fraction(4 * measure) + Fraction(1, den)
+    t1 = float(Fraction(repr(init)) + pos * 60000 / Fraction(repr(bpm0)))
+    tm = TimingMap(bpm_changes_offset=[BpmChangeOffset(bpm0, 4, init), BpmChangeOffset(bpm1, 4, t1)], snapper=Snapper(divisions=(den,)))
+    try:
+        seated = tm.reseat()
+    except Exception as ex:
+        return [("reseat_keeps_change_times_with_own_snapper", f"reseat() raised {type(ex).__name__}: {ex}")]
+    offs = [b.offset for b in seated.bpm_changes_offset]
+    if not any(abs(o - t1) <= 1e-6 for o in offs):
+        return [("reseat_keeps_change_times_with_own_snapper", f"the change at {t1} ms (beat {pos}, on the map's own 1/{den} grid) is not a tempo point after reseat(): {offs}")]
+    return []
+
+
+@bounded("C11", note="TimingMap.reseat() on maps made with their own finer snapper (1/128, 1/200 beat): every original change time is still a tempo point")
+def reseat_with_the_maps_own_snapper(rep):
+    rng = rep.rng
+    N = rep.n(60, 600)
+    rep.bound = f"{N} two-change maps: second change 1/128 or 1/200 beat after a measure line, bpms from a pool, initial offsets"
+    rep.rule = "a case is (bpm0, bpm1, init, measure, grid); all non-trivial"
+    for _ in range(N):
+        case = dict(bpm0=float(rng.choice([60, 120, 150])), bpm1=float(rng.choice([90, 200])), init=float(rng.choice([0, 250, -100])), measure=rng.randrange(1, 6), den=rng.choice([128, 200]))
+        rep.case(case)
+        for what, d in _own_snapper_fails(case):
+            rep.fail(what, case, d)
+
+
+@replayer("reseat_with_the_maps_own_snapper")
+def _r_own(case, what):
+    hit = [d for w, d in _own_snapper_fails(case) if w == what]
+    return (bool(hit), hit[0] if hit else "passes")
